@@ -51,7 +51,7 @@ ASSUMPTIONS = [
     "refusal is only demanded when the corresponding centres are farther apart than every patch radius of "
     "every catalog involved (the library compares against half the radius of its largest catalog)",
 ]
-PROBES = ["patch_column_and_centres_given", "misaligned_first_and_smaller", "single_record_patch", "mode_apply", "mode_divide", "mode_create", "refusal_ids", "refusal_permuted", "refusal_displaced", "refusal_single_displaced", "nometa_parallel_open"]
+PROBES = ["caller_modified_centre_array", "patch_column_and_centres_given", "misaligned_first_and_smaller", "single_record_patch", "mode_apply", "mode_divide", "mode_create", "refusal_ids", "refusal_permuted", "refusal_displaced", "refusal_single_displaced", "nometa_parallel_open"]
 REAL_VS_STUB = dict(
     real="yaw catalog creation, Patch/Metadata, load_patches, PatchLinkage guards, YAML; tmpfs",
     stub="multiprocessing (sim.fakemp), treecorr RNG/threads, _num_processes",
@@ -159,6 +159,12 @@ def _part_a(case: dict, root: str) -> dict:
             return dict(base, verdict="discard", detail=f"creation did not return ({o['verdict']}/{o['outcome']} {o.get('exc_type')})")
         cat = o["catalog"]
         given = o["centers_given"] if case["patch"]["mode"] == "apply" else None
+        if given is not None and o.get("coords_object") is not None:
+            # the caller re-uses its centre buffer for something else: the catalog must keep
+            # reporting the centres it was created from
+            given = np.array(given, copy=True)
+            o["coords_object"].data[...] = o["coords_object"].data[::-1] + 0.25
+            probes["caller_modified_centre_array"] = 1
         checks = [("returned", cat, given)]
         with sequential_mode():
             checks.append(("reopened", yaw.Catalog(o["target"], max_workers=1), given))
